@@ -121,6 +121,33 @@ def run(ck):
                 wit.append({'kind': 'not-100-for-same-alignment-at-scale', 'rows': NN, 'residues_per_row': LL, 'relations': (NN - 1) * NN * LL,
                             'generator': 'seed %d: %d random DNA rows of %d residues with one gap each, against the same rows reversed with an all-gap column at %d' % (ck.seed, NN, LL, hh),
                             'implementation': rb[:200]})
+        # many rows and DIFFERENT alignments (every pair of rows must be counted: 65, 100, 130, 200 rows against an independent
+        # implementation of the definition), and rows of more than 65535 residues (residue indices are C ints)
+        big_cases = []
+        for NN in ([65, 100, 130] if ck.tier == 'quick' else [65, 100, 127, 130, 200, 257]):
+            sq = [gen.rand_seq(rng, gen.PROT, rng.range(12, 30)) for _ in range(NN)]
+            big_cases.append((['m%d' % i for i in range(NN)], random_alignment(rng, sq, rng.range(2, 8)), random_alignment(rng, sq, rng.range(2, 8)), 'many-rows'))
+            ck.count('different alignments of %d rows' % NN)
+        for LL in ([70000] if ck.tier == 'quick' else [66000, 70000, 140000]):
+            sq = [gen.rand_seq(rng, gen.DNA, LL), gen.rand_seq(rng, gen.DNA, LL - rng.range(1, 400)), gen.rand_seq(rng, gen.DNA, 300)]
+            ra = random_alignment(rng, sq, 3)
+            # the test alignment shifts one row by a few columns and another by more than 65536 residues' worth of gaps
+            rt = [ra[0] + '-' * 66000, '-' * 66000 + ra[1], ra[2][:200] + '-' * 66000 + ra[2][200:]]
+            big_cases.append((['l0', 'l1', 'l2'], ra, rt, 'long-rows'))
+            ck.count('different alignments with rows of %d residues' % LL)
+        for bi, (bn, ra, rt, tag) in enumerate(big_cases):
+            fr = os.path.join(tmp, 'mr%d.fa' % bi); ft = os.path.join(tmp, 'mt%d.fa' % bi)
+            open(fr, 'w').write(gen.fasta(bn, ra)); open(ft, 'w').write(gen.fasta(bn, rt))
+            rb = ck.run_lines(kvh, ['cmp %s %s' % (fr, ft)], timeout=1200)[0]
+            ck.evaluations += 1
+            a, b = spec_score(bn, ra, bn, rt)
+            want = fbits(100.0 * a / b) if b else None
+            if not rb.startswith('OK') or (want is not None and int(rb.split()[1]) != want):
+                wit.append({'kind': 'score-differs-from-definition-' + tag, 'rows': len(bn), 'longest_row_residues': max(len(x.replace('-', '')) for x in ra),
+                            'implementation': rb[:120], 'definition': (100.0 * a / b) if b else None, 'a': a, 'b': b,
+                            'reference': dict(zip(bn, ra)) if tag == 'many-rows' and len(bn) <= 130 else 'see generator (seed %d)' % ck.seed,
+                            'test': dict(zip(bn, rt)) if tag == 'many-rows' and len(bn) <= 130 else None})
+            if a != b: ck.nontriv(('big', tag, len(bn)))
         impl = ck.run_lines(kvh, lines)
         mod = ck.run_lines(ck.model(), mlines)
         ck.evaluations += len(lines)
